@@ -55,16 +55,34 @@ def z3real(x):
     if isinstance(x, Fraction):
         return z3.RealVal(str(x))
     if isinstance(x, float):
-        return z3.RealVal(str(_frac(x)))
+        return _float_term(x)
     import numpy as _np
     if isinstance(x, _np.generic):
         if isinstance(x, (_np.integer, _np.bool_)):
             return z3.RealVal(int(x))
         if isinstance(x, _np.floating):
-            return z3.RealVal(str(_frac(float(x))))
+            return _float_term(float(x))
     if isinstance(x, SOpt):
         return z3real(x._asval())
     raise Undecided(f"cannot convert {type(x).__name__} to Real")
+
+
+_SQRT2H = 0.7071067811865476
+
+
+def _float_term(x):
+    """float -> Real term.  A-real: a float that is (to 1e-15 relative) a small non-zero integer multiple
+    or integer fraction of sqrt(2)/2 denotes that algebraic number exactly (1/np.sqrt(2), np.sqrt(2), ...)."""
+    eng = _st.ENGINE
+    if eng is not None and x != 0:
+        for k in (1, 2, 3, 4):
+            for num in (x / _SQRT2H * k,):
+                q = round(num)
+                if q != 0 and abs(q) <= 16 and abs(num - q) <= 4e-15 * abs(num) and (q % 2 == 1 or k > 1 or q % 2 == 0):
+                    # x = (q / k) * sqrt(2)/2 ; exclude plain rationals (q/k*sqrt2/2 is irrational for q != 0)
+                    w = eng.math._sqrt2h()
+                    return z3.RealVal(str(Fraction(q, k))) * w
+    return z3.RealVal(str(_frac(x)))
 
 
 def z3int(x):
